@@ -135,6 +135,7 @@ func (w *World) Msg(name string) MsgDef {
 	// short, empty and long tags: tag || signature suite must reach the KMAC key whole, also beyond one or two 168-byte blocks
 	tags := []string{"", "t", "verif-tag", "BLS_SIG_", "another application tag with a long name ............................................",
 		long(121), long(130), long(168), long(200), long(340),
+		long(8148), long(8149), long(8150), long(8192), long(9000), // tag || suite of 8192 bytes and more: the length header of the KMAC key grows
 		// tags that end with (parts of) the ciphersuite strings the library appends itself
 		SigSuite, "app-" + SigSuite, "BLS_POP_BLS12381G1_XOF:KMAC128_SSWU_RO_POP_", "x" + "BLS12381G1_XOF:KMAC128_SSWU_RO_POP_", "tag-POP_", long(30) + SigSuite + SigSuite}
 	lens := []int{0, 1, 31, 32, 33, 100, 1000, 10000}
